@@ -342,3 +342,13 @@ def iter_base(it):
     if isinstance(it, ast.Call) and call_name(it) == "enumerate" and 1 <= len(it.args) <= 2 and all(k.arg == "start" for k in it.keywords):
         return it.args[0], True
     return it, False
+
+
+def anon_src(node, keep=("self", "np", "pd")):
+    """Source text of an expression with every local name replaced by `?` (construct keys must not depend on local names)."""
+    import copy
+    n2 = copy.deepcopy(node)
+    for x in ast.walk(n2):
+        if isinstance(x, ast.Name) and x.id not in keep:
+            x.id = "?"
+    return src(n2)
